@@ -842,3 +842,21 @@ def fold_expr(fn_node: ast.AST, e: ast.AST, env: dict[str, Any], consts: Any = N
         a = [fold_expr(fn_node, x, env, consts, f, depth + 1) for x in e.args]
         return {"min": min, "max": max, "int": lambda *v: int(v[0]), "float": lambda *v: float(v[0]), "round": round, "abs": lambda *v: abs(v[0]), "math.ceil": lambda *v: math.ceil(v[0]), "math.floor": lambda *v: math.floor(v[0])}[norm(e.func)](*a)
     raise Unfoldable(txt)
+
+
+# ---- the protocol FSM's two scheduled functions, found by what they do (a closure of set_state or a method of the context) ---------
+
+
+def fsm_roles(ctx: Ctx) -> "tuple[FuncInfo, FuncInfo]":
+    """(effect function, expiry coroutine) of ramses_tx.protocol_fsm.ProtocolContext: the expiry coroutine is the async function of
+    the context that sleeps and then calls set_state(); the effect function is the synchronous one that creates the task running it."""
+    repo = ctx.repo
+    mod = "ramses_tx.protocol_fsm"
+    cands = [g for g in repo.funcs.values() if g.module.name == mod and g.qualname.startswith(f"{mod}.ProtocolContext.")]
+    exp = [g for g in cands if g.is_async and any(isinstance(n, ast.Await) and "sleep" in norm(n.value) for n in own_nodes(g.node)) and any(isinstance(c, ast.Call) and isinstance(c.func, ast.Attribute) and c.func.attr == "set_state" for c in own_nodes(g.node))]
+    if len(exp) != 1:
+        raise AnalysisError(f"protocol_fsm: the expiry coroutine (sleep, then set_state) was not found uniquely: {[g.short for g in exp]}")
+    eff = [g for g in cands if not g.is_async and g is not exp[0] and any(isinstance(c, ast.Call) and norm(c.func).endswith("create_task") and c.args and isinstance(c.args[0], ast.Call) and norm(c.args[0].func).split(".")[-1] == exp[0].name for c in own_nodes(g.node))]
+    if len(eff) != 1:
+        raise AnalysisError(f"protocol_fsm: the function that arms the expiry timer was not found uniquely: {[g.short for g in eff]}")
+    return eff[0], exp[0]
